@@ -58,6 +58,9 @@ META = {
         "purify (writes into a complex128 buffer, uses clip): numeric cross-run only",
         "the COBYLA optimisation inside quantum_discord (only the state handed to it is checked symbolically)",
         "the order of the OrderedDict returned by pauli_decomp (sorted by |coefficient|)",
+        "measure / projector with the eigh contract: only d = 2 and non-degenerate outcomes get the normalisation / idempotence "
+        "certificates (d = 3 exceeds the certificate budget); degenerate eigenspaces are decided at formula level (free route)",
+        "local-unitary invariance of correlation() and of the spectral measures: numeric cross-run only",
         "zeroify / max(0, .) clamps at 1e-14 are taken in generic position (|x| >= tol)",
     ],
     "assumptions": [
@@ -74,26 +77,27 @@ META = {
 
 # ------------------------------------------------------------------------------ environment
 
+_MISSING = object()
+
+
 class _Patches:
     def __init__(self):
         self.saved = []
 
     def set(self, obj, name, val, item=False):
-        missing = object()
         if item:
             self.saved.append((obj, name, obj[name], True))
             obj[name] = val
         else:
             d = obj.__dict__
-            self.saved.append((obj, name, d[name] if name in d else missing, False))
+            self.saved.append((obj, name, d[name] if name in d else _MISSING, False))
             setattr(obj, name, val)
-        self.missing = missing
 
     def restore(self):
         for obj, name, old, item in reversed(self.saved):
             if item:
                 obj[name] = old
-            elif old is self.missing:
+            elif old is _MISSING:
                 delattr(obj, name)
             else:
                 setattr(obj, name, old)
@@ -723,8 +727,7 @@ def _in_space(el, j, tol):
 
 @obligation(PROP, params=[{"n": 2, "kind": "ket", "route": "free"}, {"n": 2, "kind": "dop", "route": "free"},
                           {"n": 3, "kind": "ket", "route": "free", "_tiers": ("thorough",)},
-                          {"n": 2, "kind": "ket", "route": "eigh"}, {"n": 2, "kind": "dop", "route": "eigh"},
-                          {"n": 3, "kind": "ket", "route": "eigh", "_tiers": ("thorough",)}],
+                          {"n": 2, "kind": "ket", "route": "eigh"}, {"n": 2, "kind": "dop", "route": "eigh"}],
             rounds=2, rounds2=3, max_paths=400, timeout_s=600)
 @symenv(record=False)
 def measure_projector(mk, n, kind, route):
@@ -747,6 +750,10 @@ def measure_projector(mk, n, kind, route):
         el, ev = qu.eigh(A)
     for j in range(n):
         space = _in_space(el, j, tol)
+        if mk.sym and route == "eigh" and len(space) > 1:
+            # degenerate eigenspaces: formula level goals are decided on the free route; the normalisation /
+            # idempotence certificates are only attempted for non-degenerate outcomes
+            mk.assume(False)
         Pref = None
         for i in space:
             v = np.asarray(ev)[:, i]
@@ -1178,3 +1185,227 @@ def concurrence_mixed(mk, dims):
                       _conc_ref(_ptr(psi, dims, tuple(sorted((sa, sb))))), tol=1e-6)
             else:
                 mk.eq("concurrence ket == projector", qk.concurrence(qu.qu(psi), dims, sa, sb), _conc_ref(_proj(psi)), tol=1e-6)
+
+
+# ------------------------------------------------------------------------------ discord: which state is analysed
+
+class _Opt:
+    success = True
+    message = "recorder"
+
+
+_DISCORD = [{"dims": (2, 2), "sysa": 0, "sysb": 1}, {"dims": (2, 2), "sysa": 1, "sysb": 0}] + \
+           [{"dims": (2, 2, 2), "sysa": a, "sysb": b} for a, b in itertools.permutations(range(3), 2)]
+
+
+@obligation(PROP, params=[dict(d, kind=k) for d in _DISCORD for k in ("dop",)] +
+                         [dict(d, kind="ket") for d in _DISCORD if len(d["dims"]) == 3 and (d["sysa"], d["sysb"]) in ((0, 2), (2, 0))],
+            num_trials=1, timeout_s=600)
+@symenv
+def discord_subsystems(mk, dims, sysa, sysb, kind):
+    """quantum_discord(p, dims, sysa, sysb): the two-qubit state handed to the mutual information / one-way
+    classical information optimisation is the reduced state with A = sysa first and B = sysb (the measured
+    party) second, i.e. relabelling the subsystems relabels the result"""
+    mk.encodes(qk.quantum_discord, qk.one_way_classical_information)
+    D = _prod(dims)
+    if mk.sym:
+        p = mk.herm("r", D) if kind == "dop" else _ket(mk, "a", D)
+        seen = {}
+
+        def fake_mi(x, *a, **k):
+            seen["mi"] = np.asarray(x)
+            return P.real("Iab")
+
+        def fake_owci(x, prjs, precomp_func=False):
+            seen["owci"] = np.asarray(x)
+            return lambda prjs: P.real("Jab")
+
+        def fake_min(f, x0, **kw):
+            seen["x0"] = x0
+            o = _Opt()
+            o.fun = P.real("Dmin")
+            return o
+
+        mk.env_.p.set(qk, "mutual_information", fake_mi)
+        mk.env_.p.set(qk, "one_way_classical_information", fake_owci)
+        mk.env_.p.set(qk, "minimize", fake_min)
+        val = qk.quantum_discord(_q(p), dims, sysa, sysb)
+        want = _ptr(p, dims, (sysa, sysb))
+        mk.eq("state handed to the one-way classical information == reduced state ordered (A=sysa, B=sysb)", seen["owci"], want)
+        mk.eq("state handed to the mutual information (same state)", seen["mi"], seen["owci"])
+        mk.same("the optimiser starts from the documented initial angles", tuple(seen["x0"]), (math.pi / 2, math.pi))
+    else:
+        if kind == "dop":
+            # a valid state with a visible A/B asymmetry: random state mixed with a classical-quantum state
+            z0, z1, pl = np.array([1, 0.0]), np.array([0, 1.0]), np.array([1, 1.0]) / 2 ** 0.5
+            cq = 0.5 * (np.kron(_proj(z0), _proj(z0)) + np.kron(_proj(z1), _proj(pl)))
+            if len(dims) == 3:
+                lo, hi = sorted((sysa, sysb))
+                third = [i for i in range(3) if i not in (lo, hi)][0]
+                full = np.kron(cq, np.eye(2) / 2).reshape((2,) * 6)
+                src = [lo, hi, third]
+                perm = [src.index(i) for i in range(3)]
+                cq = full.transpose(perm + [q + 3 for q in perm]).reshape(8, 8)
+            p = 0.5 * _psd(mk, "r", D) + 0.5 * cq
+        else:
+            p = _norm_ket(mk, np.asarray(_ket(mk, "a", D), dtype=complex))
+        red = _ptr(p, dims, (sysa, sysb))
+        got = qk.quantum_discord(qu.qu(p), dims, sysa, sysb)
+        want = qk.quantum_discord(qu.qu(red), (2, 2), 0, 1)
+        mk.eq("quantum_discord(p, dims, sysa, sysb) == quantum_discord(reduced state ordered (A, B), (2,2), 0, 1)", got, want, tol=1e-5)
+        # definition: I(A:B) - max over projective measurements on B, on a grid (lower bound check)
+        mk.same("discord >= 0", got >= -1e-9, True)
+
+
+# ------------------------------------------------------------------------------ bookkeeping members
+
+@obligation(PROP, params=[{"dims": (2, 2), "kind": "dop"}, {"dims": (2, 2), "kind": "ket"}, {"dims": (2, 2, 2), "kind": "dop"},
+                          {"dims": (2, 2, 2), "kind": "ket"}])
+@symenv
+def qid_bookkeeping(mk, dims, kind):
+    """qid(p, dims, inds): per requested site the sum over x, y, z of coeff * norm([rho, sigma_s at that site])^power"""
+    mk.encodes(qk.qid)
+    D = _prod(dims)
+    n = len(dims)
+    for inds in (0, (n - 1,), tuple(range(n)), tuple(range(n))[::-1]):
+        it = (inds,) if isinstance(inds, int) else tuple(inds)
+        if mk.sym:
+            p = _state(mk, "p", D, kind)
+            rho = _as_dop(p)
+            calls, rets = [], []
+
+            def nf(X):
+                calls.append(np.asarray(X))
+                rets.append(P.positive(f"nrm{len(calls)}"))
+                return rets[-1]
+
+            got = qk.qid(_q(p), dims, inds, sparse_comp=False, norm_func=nf, power=2, coeff=3)
+            mk.same(f"inds={inds}: one value per requested site", len(got), len(it))
+            mk.same(f"inds={inds}: three commutator norms per site", len(calls), 3 * len(it))
+            k = 0
+            for pos, site in enumerate(it):
+                tot = 0
+                for s in "XYZ":
+                    op = ref.embed(_pauli(mk, s), dims, (site,))
+                    mk.eq(f"inds={inds} site {site} {s}: operator handed to the norm == [rho, sigma]", calls[k],
+                          ref.matmul(rho, op) - ref.matmul(op, rho))
+                    tot = tot + 3 * rets[k] ** 2
+                    k += 1
+                mk.eq(f"inds={inds} site {site}: value == sum coeff * norm^power", got[pos], tot)
+        else:
+            p = _psd(mk, "r", D) if kind == "dop" else _norm_ket(mk, np.asarray(_ket(mk, "a", D), dtype=complex))
+            rho = _as_dop(p)
+            got = qk.qid(qu.qu(p), dims, inds)
+            f = qk.qid(None, dims, inds, precomp_func=True)
+            for pos, site in enumerate(it):
+                tot = 0.0
+                for s in "XYZ":
+                    op = ref.embed(_pauli(mk, s), dims, (site,))
+                    tot += np.linalg.norm(rho @ op - op @ rho, 2) ** 2
+                mk.eq(f"inds={inds} site {site}: qid == sum of squared spectral norms of the commutators", got[pos], tot, tol=1e-6)
+                mk.eq(f"inds={inds} site {site}: precomp_func", f(qu.qu(p))[pos], tot, tol=1e-6)
+
+
+@obligation(PROP, params=[{"nq": 3, "kind": "ket", "sz": 1}, {"nq": 3, "kind": "dop", "sz": 1}, {"nq": 4, "kind": "ket", "sz": 2},
+                          {"nq": 4, "kind": "ket", "sz": 1}, {"nq": 4, "kind": "dop", "sz": 2, "_tiers": ("thorough",)},
+                          {"nq": 5, "kind": "ket", "sz": 2, "_tiers": ("thorough",)}], num_trials=1)
+@symenv
+def ent_cross_matrix_bookkeeping(mk, nq, kind, sz):
+    """ent_cross_matrix: which reduced states / block dimensions are handed to ent_fn, where the values land"""
+    mk.encodes(qk.ent_cross_matrix)
+    D = 2 ** nq
+    dims = (2,) * nq
+    nb = nq // sz
+    blocks = [tuple(range(b * sz, (b + 1) * sz)) for b in range(nb)]
+    bip = kind == "ket" and sz * 2 == nq
+    if mk.sym:
+        p = _state(mk, "p", D, kind)
+        calls = []
+
+        def ent_fn(x, dims=None, **kw):
+            calls.append((np.asarray(x), tuple(dims)))
+            return float(100 + len(calls))
+
+        for upscale in (False, True):
+            del calls[:]
+            M = qk.ent_cross_matrix(_q(p), sz_blc=sz, ent_fn=ent_fn, calc_self_ent=False, upscale=upscale)
+            mk.same(f"upscale={upscale}: shape", M.shape, (nq, nq) if upscale else (nb, nb))
+            mk.same("block dimensions handed to ent_fn", {c[1] for c in calls}, {(2 ** sz, 2 ** sz)})
+            if bip:
+                mk.same("pure bipartition: one call on the ket itself", len(calls), 1)
+                mk.eq("pure bipartition: state", calls[0][0], p)
+                want = np.full((nb, nb), 101.0 / sz)
+                np.fill_diagonal(want, np.nan)
+            else:
+                pairs = [(i, j) for i in range(nb) for j in range(i + 1, nb)]
+                mk.same("one call per unordered pair of blocks", len(calls), len(pairs))
+                want = np.full((nb, nb), np.nan)
+                for k, (i, j) in enumerate(pairs):
+                    mk.eq(f"blocks {i},{j}: reduced state of the sites of both blocks", calls[k][0], _ptr(p, dims, blocks[i] + blocks[j]))
+                    want[i, j] = want[j, i] = (101.0 + k) / sz
+            if upscale:
+                want = np.kron(want, np.ones((sz, sz)))
+                if nq > nb * sz:
+                    w2 = np.full((nq, nq), np.nan)
+                    w2[:nb * sz, :nb * sz] = want
+                    want = w2
+            mk.same(f"upscale={upscale}: where the values land", np.array_equal(M, want, equal_nan=True), True)
+    else:
+        p = _psd(mk, "r", D) if kind == "dop" else _norm_ket(mk, np.asarray(_ket(mk, "a", D), dtype=complex))
+        M = qk.ent_cross_matrix(qu.qu(p), sz_blc=sz, calc_self_ent=True)
+        for i in range(nb):
+            for j in range(i, nb):
+                if bip:
+                    want = qk.logneg(qu.qu(p), (2 ** sz, 2 ** sz)) / sz
+                elif i == j:
+                    ev = np.linalg.eigvalsh(_ptr(p, dims, blocks[i]))
+                    want = max(0.0, np.log2(np.sqrt(ev[ev > 1e-15]).sum() ** 2)) / sz
+                else:
+                    red = _ptr(p, dims, blocks[i] + blocks[j])
+                    want = max(0.0, np.log2(_np_trnorm(_ptranspose(red, (2 ** sz, 2 ** sz), (0,))))) / sz
+                mk.eq(f"entry {i},{j}", M[i, j], want, tol=1e-5)
+                mk.eq(f"entry {j},{i}", M[j, i], want, tol=1e-5)
+
+
+# ------------------------------------------------------------------------------ local unitary invariance
+
+def _unitary(mk, name, d):
+    """symbolic mode: free matrix with U^dag U = U U^dag = 1 as hypotheses; numeric: exp(i Hermitian)"""
+    if mk.sym:
+        from qv import stubs
+        U = mk.array(name, (d, d), "cplx")
+        stubs._add_eq(f"{name}:UhU-I", ref.matmul(ref.dag(U), U) - ref.eye(d, like=U), False)
+        stubs._add_eq(f"{name}:UUh-I", ref.matmul(U, ref.dag(U)) - ref.eye(d, like=U), False)
+        return U
+    return sla.expm(1j * np.asarray(mk.herm(name + "g", d), dtype=complex))
+
+
+@obligation(PROP, params=[{"member": "fidelity"}, {"member": "purity_overlap"}],
+            rounds=2, rounds2=3, timeout_s=900, max_rows=300000)
+@symenv
+def local_unitary_invariance(mk, member):
+    """two qubits, U = U_A x U_B with U_A, U_B unitary (hypotheses): pure-state fidelity and the overlap <a|rho|a>
+    are invariant (the correlation function with co-rotated observables exceeds the certificate budget: numeric only)"""
+    mk.encodes(qk.fidelity, qk.correlation, qc.expectation)
+    dims = (2, 2)
+    UA, UB = _unitary(mk, "UA", 2), _unitary(mk, "UB", 2)
+    U = ref.kron(UA, UB)
+    if member == "fidelity":
+        a, b = _ket(mk, "a", 4), _ket(mk, "b", 4)
+        mk.eq("fidelity(Ua, Ub)^2 == fidelity(a, b)^2", qk.fidelity(_q(ref.matmul(U, a)), _q(ref.matmul(U, b)), squared=True),
+              qk.fidelity(_q(a), _q(b), squared=True))
+    else:
+        a = _ket(mk, "a", 4)
+        r = mk.herm("r", 4)
+        r2 = ref.matmul(ref.matmul(U, r), ref.dag(U))
+        mk.eq("<Ua| U rho U^dag |Ua> == <a|rho|a>", qc.expec(_q(ref.matmul(U, a)), _q(r2)), qc.expec(_q(a), _q(r)))
+        if not mk.sym:
+            A, B = np.asarray(mk.herm("A", 2), dtype=complex), np.asarray(mk.herm("B", 2), dtype=complex)
+            A2, B2 = UA @ A @ UA.conj().T, UB @ B @ UB.conj().T
+            mk.eq("correlation(U a; U_A A U_A^dag, U_B B U_B^dag) == correlation(a; A, B)",
+                  qk.correlation(qu.qu(U @ a), qu.qu(A2), qu.qu(B2), 0, 1, dims=dims),
+                  qk.correlation(qu.qu(a), qu.qu(A), qu.qu(B), 0, 1, dims=dims))
+            rr = _psd(mk, "q", 4)
+            mk.eq("entropy invariant under local unitaries", qk.entropy(qu.qu(U @ rr @ U.conj().T)), qk.entropy(qu.qu(rr)), tol=1e-6)
+            mk.eq("negativity invariant under local unitaries", qk.negativity(qu.qu(U @ rr @ U.conj().T)), qk.negativity(qu.qu(rr)), tol=1e-6)
+            mk.eq("mutinf invariant under local unitaries", qk.mutinf(qu.qu(U @ rr @ U.conj().T)), qk.mutinf(qu.qu(rr)), tol=1e-6)
